@@ -39,7 +39,7 @@ Theorem repeated_call_same_outcome :
          (window : Z -> errstate -> errstate) (w : world) (f : Z) (args : list arg) (mid : list op),
   Forall is_call mid ->
   exists o omid,
-    o = OCall (result_of f (window f (w_err w)) (map (arg_value w) args))
+    o = OCall (result_of f (w_err w) (map (arg_value w) args))
     /\ snd (exec result_of norm_of window w (Call f args :: mid ++ [Call f args])) = o :: omid ++ [o].
 Proof. exact repeat_same_outcome_l. Qed.
 Print Assumptions repeated_call_same_outcome.
